@@ -33,6 +33,12 @@ impl Shape {
         self.iter().product()
     }
 
+    /// The number of elements of an array with the corresponding shape, or `None` on overflow.
+    pub(crate) fn checked_elements(&self) -> Option<usize> {
+        self.iter()
+            .try_fold(1usize, |acc, &v| acc.checked_mul(v))
+    }
+
     pub(crate) fn index_from_flat_unchecked(&self, mut flat: usize) -> Vec<usize> {
         let mut n = self.elements();
         let mut index = vec![0; self.len()];
